@@ -117,7 +117,7 @@ def cell_spec(cell, rng=None):
     return (dict(ham=hamn, eig=eig, op_dims=_ops_for(oc, dim, rng), n=n, bad=bad, spe=spe,
                  nsteps=nsteps, numseed=rng.randint(1, 10 ** 9), slm=slm, slm_end_step=rng.randint(1, nsteps - 1)),
             dict(backend=b, solver=s, noise=rng.choice(noises) if cn else {}, obs=obs,
-                 precision=rng.choice([1e-5, 1e-8])))
+                 precision=rng.choice([1e-5, 1e-8]), solver_form=rng.choice(L.SOLVER_FORMS)))
 
 
 def run_case(rep: Report, dspec, cspec, cell, lines, sink, origin):
@@ -138,7 +138,10 @@ def run_case(rep: Report, dspec, cspec, cell, lines, sink, origin):
     sink.append(("rebuild-default", None, out))
     if cspec["backend"] == "mps":
         lines.append(L.impl_line(feat))
-        sink.append(("impl", dict(data=dspec, cfg=cspec), L.impl_real(L.build_data(dspec), cfg)))
+        impl_out = L.impl_real(L.build_data(dspec), cfg)
+        sink.append(("impl", dict(data=dspec, cfg=cspec), impl_out))
+        lines.append(L.impl_line(feat, test="identity"))
+        sink.append(("impl-identity", None, impl_out))
     rep.hist("outcome", out)
     return out
 
@@ -194,11 +197,12 @@ def check_pipeline(rep: Report, rng, n_random, lines, sink, exhaustive_dims=(2, 
     cases += [(rng.choice(["sv", "mps"]), rng.choice(["ising", "XY", "xy", "", "Ising"]), rng.choice([2, 3, 4, 5]),
                rng.choice(noises), rng.choice(["tdvp", "dmrg"])) for _ in range(n_random)]
     for b, it, dim, z, s in cases:
-        out, data, cfg, info = L.pipeline_real(b, it, dim, z, s)
+        form = rng.choice(L.SOLVER_FORMS)
+        out, data, cfg, info = L.pipeline_real(b, it, dim, z, s, solver_form=form)
         if data is not None:
             bad = L.oracle_run(b, data, cfg, out, info)
             if bad:
-                rep.fail(bad[0], dict(kind="pipeline", backend=b, it=it, dim=dim, noise=z, solver=s), klass=bad[1])
+                rep.fail(bad[0], dict(kind="pipeline", backend=b, it=it, dim=dim, noise=z, solver=s, form=form), klass=bad[1])
         bad = oracle_noise(L.noise_model(z), dim, out)
         if bad:
             rep.fail(bad[0], dict(kind="pipeline", backend=b, it=it, dim=dim, noise=z, solver=s), klass=bad[1])
@@ -212,62 +216,93 @@ def check_pipeline(rep: Report, rng, n_random, lines, sink, exhaustive_dims=(2, 
         rep.hist("pipeline_outcome", out)
 
 
-def check_sequences(rep: Report, lines, sink):
-    """Real Pulser sequences (ground-rydberg, digital, both, XY) end to end."""
+SEQ_COMBOS = [(d, p) for d, ps in (("gr", ("gr", "")), ("dig", ("dig", "")), ("xy", ("xy", "")),
+                                   ("dig,gr", ("dig,gr", "dig", "gr", "")), ("gr,xy", ("gr", "xy")))
+              for p in ps]
+SMALL_NOISES = [{}, {"relaxation_rate": 0.1}, {"with_leakage": True, "eff": [3]}]
+
+
+def sequence_verdict(b, declared, pulsed, z, s, form="enum"):
+    """One real Pulser sequence (channels of the bases in `declared`, pulses only on `pulsed`) through
+    the real run(). → (out, basis, data, cfg, info, failures)"""
+    out, basis, data, cfg, info = L.sequence_real(b, declared, z, s, pulsed=pulsed, solver_form=form)
+    fails = []
+    if out == "pulser-refused":
+        return out, basis, data, cfg, info, fails
+    if data is not None:
+        bad = L.oracle_run(b, data, cfg, out, info)
+        if bad:
+            fails.append(bad)
+    bad = oracle_noise(L.noise_model(z), basis[1], out) if basis is not None else None
+    if bad:
+        fails.append(bad)
+    if out.startswith("emulate") and "dig" in pulsed.split(","):
+        fails.append((f"{b} returned Results for a sequence that PULSES the digital (raman) basis "
+                      f"(declared channels: {declared}; pulsed: {pulsed}) — a basis it does not implement",
+                      "emulates-unsupported-pulsed-basis"))
+    return out, basis, data, cfg, info, fails
+
+
+def check_sequences(rep: Report, lines, sink, rng=None):
+    """Real Pulser sequences end to end: every set of declared channel bases Pulser accepts
+    (ground-rydberg, digital, both, XY; XY + anything is refused by Pulser) x which of them are
+    actually pulsed (all, one, none — the others only get a delay)."""
     from emu_base.pulser_adapter import _extract_omega_delta_phi, PulserData
     noises = [z for z in L.NOISE_SPECS if L.try_noise_model(z) is not None]
-    for bases in ("gr", "dig", "dig,gr", "xy"):
+    for declared, pulsed in SEQ_COMBOS:
+        spec0 = dict(declared=declared, pulsed=pulsed)
         # the extraction step alone, on the real samples
         try:
-            pd = PulserData(sequence=L.pulser_sequence(bases), config=L.build_config(dict(backend="sv", solver="tdvp")),
-                            dt=10.0)
+            pd = PulserData(sequence=L.pulser_sequence(declared, pulsed=pulsed),
+                            config=L.build_config(dict(backend="sv", solver="tdvp")), dt=10.0)
+        except Exception as e:      # Pulser refuses the combination / could not sample it
+            rep.count("extract_skipped_" + type(e).__name__)
+            pd = None
+        if pd is not None:
             try:
                 _extract_omega_delta_phi(next(iter(pd.hamiltonian.noisy_samples)).samples, pd.qubit_ids, pd.target_times)
                 out = "ok"
             except Exception as e:
                 out = "raise " + L.canon_exc(e)
-            lines.append("config.extract " + bases)
-            sink.append(("extract", dict(bases=bases), out))
-        except Exception as e:      # pulser-core could not even sample it
-            rep.count("extract_skipped_" + type(e).__name__)
-        for z in noises:
+            for g in ("declared", "used"):
+                lines.append(f"config.extractg {g} {declared} {pulsed or '-'}")
+                sink.append(("extract" if g == "declared" else "extract-used", spec0, out))
+        # nothing pulsed: no leakage noise — pulser-core 1.9.1 then appends "x" to a module-level default eigenbasis and
+        # every later sequence in the process is reported with 3 levels (third-party state leak, not the repository's)
+        for z in (noises if pulsed == declared else (SMALL_NOISES if pulsed else SMALL_NOISES[:2])):
             leak = bool(z.get("with_leakage"))
-            for b, s in (("sv", "tdvp"), ("mps", "tdvp"), ("mps", "dmrg")):
-                out, basis, data, cfg, info = L.sequence_real(b, bases, z, s)
+            for b, s, form in (("sv", "tdvp", "enum"), ("mps", "tdvp", "enum"), ("mps", "dmrg", "enum"),
+                               ("mps", "dmrg", "str"), ("mps", "tdvp", "repr")):
+                out, basis, data, cfg, info, fails = sequence_verdict(b, declared, pulsed, z, s, form)
+                spec = dict(kind="sequence", backend=b, bases=declared, pulsed=pulsed, noise=z, solver=s, form=form)
                 if basis is not None:
-                    lines.append(f"config.basis {bases} {'1' if leak else '0'}")
-                    sink.append(("basis", dict(bases=bases, leak=leak), f"some {L.it_token(basis[0])} {basis[1]}"))
+                    lines.append(f"config.basis {declared} {pulsed or '-'} {'1' if leak else '0'}")
+                    sink.append(("basis", dict(declared=declared, pulsed=pulsed, leak=leak),
+                                 f"some {L.it_token(basis[0])} {basis[1]}"))
                 if out == "pulser-refused":
                     rep.count("sequence_pulser_refused")
                     continue
-                if data is not None:
-                    bad = L.oracle_run(b, data, cfg, out, info)
-                    if bad:
-                        rep.fail(bad[0], dict(kind="sequence", backend=b, bases=bases, noise=z, solver=s), klass=bad[1])
-                bad = oracle_noise(L.noise_model(z), basis[1], out) if basis is not None else None
-                if bad:
-                    rep.fail(bad[0], dict(kind="sequence", backend=b, bases=bases, noise=z, solver=s), klass=bad[1])
-                if out.startswith("emulate") and "dig" in bases:
-                    rep.fail(f"{b} returned Results for a sequence addressing the digital basis ({bases})",
-                             dict(kind="sequence", backend=b, bases=bases, noise=z, solver=s),
-                             klass="emulates-digital-basis")
+                for msg, klass in fails:
+                    rep.fail(msg, spec, klass=klass)
                 if data is not None:
                     # the back-end stage on the adapter's own SequenceData, classified by what it is
                     feat = L.features(b, data, cfg, s)
                     lines.append(L.seq_line(feat))
-                    sink.append(("seq:sequence", dict(backend=b, bases=bases, noise=z, solver=s,
-                                                      cell=list(L.cell_of(feat))), out))
+                    sink.append(("seq:sequence", dict(spec, cell=list(L.cell_of(feat))), out))
                     if feat["good"] < feat["n"]:
                         # Pulser drew badly prepared atoms (SPAM): `acceptSequence` is stated for a fully
                         # prepared register; the run is judged by the `config.seq` line above only
                         rep.count("sequence_with_badly_prepared_atoms")
                         continue
+                kinds = ",".join(L.kinds_of(L.noise_model(z))) or "-"
                 for fixed in ("0", "1"):     # tree before / after the D22 fix (C33) in run()
-                    lines.append(" ".join(["config.sequence", "repaired", fixed, b, bases, "1" if leak else "0",
-                                           ",".join(L.kinds_of(L.noise_model(z))) or "-", s]))
-                    sink.append(("sequence" if fixed == "0" else "sequence-fixed",
-                                 dict(backend=b, bases=bases, noise=z, solver=s), out))
-                rep.hist("sequence_outcome", f"{bases}: {out}")
+                    lines.append(" ".join(["config.sequence", "declared", "repaired", fixed, b, declared, pulsed or "-",
+                                           "1" if leak else "0", kinds, s]))
+                    sink.append(("sequence" if fixed == "0" else "sequence-fixed", spec, out))
+                lines.append(" ".join(["config.sequence", "used", "repaired", "1", b, declared, pulsed or "-",
+                                       "1" if leak else "0", kinds, s]))
+                sink.append(("sequence-used", spec, out))
+                rep.hist("sequence_outcome", f"declared={declared} pulsed={pulsed or 'none'}: {out}")
 
 
 def dense_specs(rng, n_random):
@@ -346,8 +381,12 @@ def check(rep: Report, tier: str, seed: int) -> None:
     lines: list = []
     sink: list = []
     for cell in CELLS:
-        dspec, cspec = cell_spec(cell)
-        run_case(rep, dspec, cspec, cell, lines, sink, "cell")
+        # how the solver is requested is a further axis of the mps cells: the Solver member, the documented string,
+        # a config round-tripped through its abstract representation
+        for form in (("enum", "str", "repr") if cell[0] == "mps" else ("enum",)):
+            dspec, cspec = cell_spec(cell)
+            cspec["solver_form"] = form
+            run_case(rep, dspec, cspec, cell, lines, sink, "cell")
     rep.extra["cells_enumerated"] = len(CELLS)
     rep.extra["cells_not_realisable"] = "192 (fewer than two atoms x changing interaction matrix)"
     nvar = 500 if quick else len(CELLS) * 8
@@ -370,10 +409,24 @@ def check(rep: Report, tier: str, seed: int) -> None:
     except LeanError as e:
         rep.broke("driver: " + str(e)[-800:])
         model = [None] * len(lines)
-    dis, asfound_hits, rebuild_hits = 0, 0, 0
+    dis, asfound_hits, rebuild_hits, used_hits, identity_hits = 0, 0, 0, 0, 0
+    last_seq = (None, None)
     prev = pending = None
     d20 = {"asFound": 0, "repaired": 0}
     for line, (kind, spec, out), mo in zip(lines, sink, model):
+        if kind == "impl-identity":
+            # variant resolution: solver tested by identity (`is Solver.DMRG`, t09-C33)?
+            pline, (pk, pspec, pout), pmo = prev
+            if pk == "impl" and pmo is not None and pmo != pout and mo == pout:
+                identity_hits += 1
+            continue
+        if kind in ("sequence-used", "extract-used"):
+            # variant resolution: the single-basis guard counting only bases with non-zero samples (t11-C04)
+            if mo is not None and last_seq[0] is not None and last_seq[0] != last_seq[1] and mo == last_seq[1]:
+                used_hits += 1
+            continue
+        if kind == "extract":
+            last_seq = (mo, out)
         if kind == "sequence":
             pending = mo
             continue
@@ -383,6 +436,7 @@ def check(rep: Report, tier: str, seed: int) -> None:
                 d20[("asFound" if out == pending else "repaired")] += 1
             mo = pending if out == pending else mo
             kind = "sequence"
+            last_seq = (mo, out)
         if kind == "rebuild-default":
             pline, (pk, pspec, pout), pmo = prev
             if pmo is not None and pmo != pout and mo == pout:
@@ -404,14 +458,25 @@ def check(rep: Report, tier: str, seed: int) -> None:
     rep.extra["correspondence_disagreements"] = dis
     rep.extra["run_dmrg_effective_noise_check_variant_matches"] = d20
     rep.extra["cases_matching_the_pre_fix_variant_only"] = asfound_hits
+    rep.extra["cases_matching_solver_tested_by_identity_only"] = identity_hits
+    if identity_hits:
+        rep.broke(f"{identity_hits} create_impl case(s) behave like SolverTest.byIdentity (`is Solver.DMRG`: a solver "
+                  "requested as the string 'dmrg' or round-tripped through the abstract repr is not recognised), for "
+                  "which Props/C04 proves solver_identity_counterexample")
+    rep.extra["cases_matching_the_used_bases_extract_guard_only"] = used_hits
+    if used_hits:
+        rep.broke(f"{used_hits} sequence/extract case(s) behave like ExtractGuard.used (the single-basis guard of "
+                  "_extract_omega_delta_phi counts only bases with non-zero samples while the selection looks at the "
+                  "declared ones), for which Props/C04 proves extract_guard_used_counterexample")
     rep.extra["cases_matching_the_default_rydberg_rebuild_variant_only"] = rebuild_hits
     if rebuild_hits:
         rep.broke(f"{rebuild_hits} case(s) behave like Rebuild.defaultRydberg (the MPO rebuilt at the end of an SLM "
                   "mask is a Rydberg one whatever the basis), for which Props/C04 proves "
                   "run_kind_defaultRydberg_counterexample")
     if asfound_hits:
-        rep.broke(f"{asfound_hits} case(s) behave like Variant.asFound (the tree before the emu-sv basis guard / "
-                  "create_impl solver-first fixes), for which Props/C04 proves counterexamples")
+        rep.broke(f"{asfound_hits} case(s) have the outcome Variant.asFound predicts (the tree before the emu-sv basis "
+                  "guard / create_impl solver-first fixes; other variants listed here may predict the same outcome), "
+                  "for which Props/C04 proves counterexamples")
     if rep.broken and not rep.failing:
         search(rep, seed, 3000 if quick else 40000)
 
@@ -450,7 +515,8 @@ def replay(rep: Report, path: str) -> int:
             msg = L.oracle_run(d["cfg"]["backend"], dd, cc, out, info)
             msg = msg[0] if msg else None
         elif d["kind"] == "pipeline":
-            out, dd, cc, info = L.pipeline_real(d["backend"], d["it"], d["dim"], d["noise"], d["solver"])
+            out, dd, cc, info = L.pipeline_real(d["backend"], d["it"], d["dim"], d["noise"], d["solver"],
+                                                d.get("form", "enum"))
             msg = L.oracle_run(d["backend"], dd, cc, out, info) if dd is not None else None
             msg = msg[0] if msg else None
             if not msg:
@@ -460,14 +526,9 @@ def replay(rep: Report, path: str) -> int:
                     d["backend"] == "sv" and (d["it"] != "ising" or d["dim"] != 2))):
                 msg = f"Results for interaction type {d['it']!r} with {d['dim']} levels"
         else:
-            out, basis, dd, cc, info = L.sequence_real(d["backend"], d["bases"], d["noise"], d["solver"])
-            msg = L.oracle_run(d["backend"], dd, cc, out, info) if dd is not None else None
-            msg = msg[0] if msg else None
-            if not msg and basis is not None:
-                msg = oracle_noise(L.noise_model(d["noise"]), basis[1], out)
-                msg = msg[0] if msg else None
-            if not msg and out.startswith("emulate") and "dig" in d["bases"]:
-                msg = "Results for a sequence addressing the digital basis"
+            out, basis, dd, cc, info, fails = sequence_verdict(d["backend"], d["bases"], d.get("pulsed", d["bases"]),
+                                                               d["noise"], d["solver"], d.get("form", "enum"))
+            msg = fails[0][0] if fails else None
         print(f"replay[{d['kind']}]: outcome={out}:", msg or "property holds on this input now")
         bad += bool(msg)
     return 1 if bad else 0
